@@ -447,6 +447,41 @@ impl<'a> Hist<'a> {
             txs.push(t);
             labels.push("repeat-tx".into());
         }
+        // a second, different transaction spending the same inputs as a member of the batch (the inputs may be
+        // coins of the prior state or coins created inside the batch)
+        if !txs.is_empty() && r.chance(1, 10) {
+            let k = r.below(txs.len() as u64) as usize;
+            let mut t = txs[k].clone();
+            if !t.inputs.is_empty() && t.kind != TxKind::Faucet {
+                if let Some(o) = t.outputs.iter_mut().find(|o| o.denom == Denom::Mel && o.value.0 > 0) {
+                    o.value = CoinValue(o.value.0 - 1);
+                    t.fee = CoinValue(t.fee.0 + 1);
+                    // re-sign: the wallet knows the covenants of the inputs through the scratch history
+                    let p0 = self.parts(name);
+                    let cm = CoinMapping::new(p0.coins.clone());
+                    let mut known = self.wallet.coins(&cm, &self.w.names);
+                    for other in txs.iter() {
+                        for (i, oc) in other.outputs.iter().enumerate() {
+                            if let Some(spec) = self.wallet.specs.get(&oc.covhash) {
+                                let mut cd = oc.clone();
+                                if cd.denom == Denom::NewCustom {
+                                    cd.denom = Denom::Custom(other.hash_nosigs());
+                                }
+                                known.push(WCoin { id: other.output_coinid(i as u8), cdh: CoinDataHeight { coin_data: cd, height: p0.height }, spec: spec.clone() });
+                            }
+                        }
+                    }
+                    let ins: Vec<WCoin> = t.inputs.iter().filter_map(|i| known.iter().find(|c| c.id == *i).cloned()).collect();
+                    if ins.len() == t.inputs.len() {
+                        sign(&self.wallet, &mut t, &ins);
+                        self.w.names.reg_tx(&t);
+                        let pos = r.below(txs.len() as u64 + 1) as usize;
+                        txs.insert(pos, t);
+                        labels.push("conflicting-spender".into());
+                    }
+                }
+            }
+        }
         (txs, labels.join("/"))
     }
 }
